@@ -31,9 +31,22 @@ class TLCResult:
         m2 = re.findall(r"The number of states generated: (\d+)", out)
         if m2 and not m:
             self.generated = int(m2[-1]); self.distinct = self.generated
-        self.printed = []      # PrintT lines (tuples / strings)
+        self.printed = []      # PrintT lines (tuples / strings); TLC wraps long tuples over several lines: rejoin them
+        acc = None
         for ln in out.splitlines():
-            if ln.startswith("<<") or ln.startswith('"'):
+            if acc is not None:
+                acc += " " + ln.strip()
+                if ln.rstrip().endswith(">>") and acc.count("<<") == acc.count(">>"):
+                    self.printed.append(acc); acc = None
+                elif len(acc) > 2000000:
+                    acc = None
+                continue
+            if ln.startswith("<<"):
+                if ln.rstrip().endswith(">>") and ln.count("<<") == ln.count(">>"):
+                    self.printed.append(ln)
+                else:
+                    acc = ln.rstrip()
+            elif ln.startswith('"'):
                 self.printed.append(ln)
         self.errors = [ln for ln in out.splitlines() if ln.startswith("Error:")]
         self.violated = None
@@ -370,8 +383,23 @@ def main(pid, fn, level="model_checking"):
         rc = chk.finish()
     except Infra as e:
         log("INFRA: " + str(e))
-        print("%s ERROR (check could not run, exit 2): %s" % (pid, str(e).splitlines()[0]))
-        rc = 2
+        if chk.violations:              # confirmed violations were already recorded: they stand, the later infra problem is noted
+            chk.note("after the violations were confirmed the check hit an infrastructure problem: " + str(e).splitlines()[0][:200])
+            rc = chk.finish()
+        else:
+            print("%s ERROR (check could not run, exit 2): %s" % (pid, str(e).splitlines()[0]))
+            rc = 2
+    except SystemExit:
+        raise
+    except BaseException as e:           # a bug in the check itself is never a verdict about the code
+        import traceback
+        traceback.print_exc()
+        if chk.violations:
+            chk.note("after the violations were confirmed the check crashed: %s: %s" % (type(e).__name__, str(e)[:200]))
+            rc = chk.finish()
+        else:
+            print("%s ERROR (check crashed, exit 2): %s: %s" % (pid, type(e).__name__, str(e)[:200]))
+            rc = 2
     sys.exit(rc)
 
 
